@@ -469,9 +469,8 @@ class Executor:
         if c is not None and c[0] == n:
             return self.convert_cell(c, want, st)
         # assemble from several cells / part of a cell (bytes)
-        bits = self.read_bits(st, reg, p.off, n)
+        bits = self.read_bits(st, reg, p.off, n, garbage_ok=True)
         if bits is None:
-            st.ub.append(('read of uninitialised memory', '%s+%d (%s)' % (reg.name, p.off, want)))
             return self.fresh_garbage(ty)
         return self.from_bits(bits, want)
 
@@ -530,8 +529,10 @@ class Executor:
             return mk('trunc', want, bits)
         raise Unsupported('from_bits widen')
 
-    def read_bits(self, st, reg, off, n):
-        """little-endian integer term made of bytes [off, off+n) or None if any byte is uninitialised"""
+    def read_bits(self, st, reg, off, n, garbage_ok=False):
+        """little-endian integer term made of bytes [off, off+n) or None if any byte is uninitialised.  With
+        garbage_ok an uninitialised byte becomes a fresh `__garbage` variable: reading indeterminate bytes is not
+        itself undefined behaviour; branching on them or returning them is, and is flagged there."""
         parts = []  # (nbits, term) low to high
         pos = off
         end = off + n
@@ -546,7 +547,12 @@ class Executor:
                         found = (pos - back, c, csz)
                     break
             if found is None:
-                return None
+                if not garbage_ok:
+                    return None
+                self._garbage[0] += 1
+                parts.append(tm.arg('i8', '__garbage%d' % self._garbage[0]))
+                pos += 1
+                continue
             coff, c, csz = found
             if isinstance(c[2], (Ptr, FnPtr, Undef)) or (isinstance(c[2], tuple)):
                 raise Unsupported('partial load of pointer/undef cell')
@@ -766,6 +772,8 @@ class Executor:
             return None
         if c is UNDEF or not isinstance(c, T):
             raise Unsupported('branch on %r' % (c,))
+        if any(a.startswith('__garbage') for a in tm.free_args(c)):
+            st.ub.append(('branch on an uninitialised value', tm.show(c, 3)))
         nc = tm.negate(c)
         if c.op == 'icmp' and isinstance(c.args[1], T) and c.args[1].id in st.pinned and tm.is_ic(c.args[2]):
             v = mk('icmp', 'i1', c.args[0], st.pinned[c.args[1].id], c.args[2])
